@@ -2,6 +2,8 @@ SPECIFICATION TSpec
 CONSTANTS
   REQ <- TraceREQ
   T = 100
+  STALL = {}
+  LateResponseOK = TRUE
   MaxId = 200
   ACCEPT <- TraceNat
   DELAY <- TraceNat
